@@ -304,6 +304,60 @@ func run(c *core.Ctx) int {
 			c.Inconclusive("never-reached:" + k)
 		}
 	}
+	// compile-time typed host functions with user-defined parameter / result types
+	var namedJSON []json.RawMessage
+	nr := rng.Split()
+	for i, n := 0, c.N(2, 6); i < n; i++ {
+		namedJSON = append(namedJSON, core.J(namedCase{Seed: nr.U64() >> 1, K: K}))
+	}
+	for _, r := range core.RunCases(c, "namedfixed", namedJSON, core.ChildOpts{Batch: 1, TimeoutS: 900, RlimitAS: 8 << 30}) {
+		if r.Crash != nil {
+			if r.Crash.Kind == "timeout" {
+				c.Inconclusive("watchdog")
+				continue
+			}
+			c.Violate("named-fixed-family:crash:"+r.Crash.Kind+":"+firstWords(r.Crash.Detail), r.Crash.Detail,
+				map[string]any{"named_case": namedJSON[r.Index], "crash": r.Crash})
+			continue
+		}
+		var nres namedResult
+		if r.Out == nil || json.Unmarshal(r.Out, &nres) != nil {
+			c.Inconclusive("bad-child-output")
+			continue
+		}
+		if nres.BuildErr != "" {
+			c.Violate("named-fixed-family:build-error:"+firstWords(errClassStr(nres.BuildErr)), nres.BuildErr, map[string]any{"named_case": namedJSON[r.Index]})
+			continue
+		}
+		for _, f := range nres.Findings {
+			c.Violate(f.Sig, f.Detail, f.Witness)
+			c.Count("findings_reported_by_children", 1)
+		}
+		if nres.Engines != 2 {
+			c.Inconclusive("engine-run-incomplete")
+			continue
+		}
+		calls += nres.Calls
+		c.Count("named_fixed_cases", 1)
+		c.Count("named_fixed_calls", nres.Calls)
+		c.Count("named_fixed_values_compared", nres.Values)
+		c.Count("named_fixed_masks_checked", nres.Masks)
+		c.Count("named_fixed_functions", int64(nres.Functions))
+		for k, v := range nres.GoTypes {
+			c.Count("named_fixed "+k, v)
+			c.Distinct("named_fixed_go_types", k)
+		}
+		for k, v := range nres.Forms {
+			c.Count("named_fixed_form "+k, v)
+		}
+	}
+	for _, dir := range []string{"param", "result"} {
+		for _, t := range []string{"myI32", "myU32", "myI64", "myU64", "myF32", "myF64", "myPtr"} {
+			if c.Counter("named_fixed "+dir+" "+t) == 0 {
+				c.Inconclusive("never-reached:named-fixed-" + dir + "-" + t)
+			}
+		}
+	}
 	matrix := map[string]*[maxArity]int64{}
 	cell := func(side string, t T, pos int) {
 		k := side + " " + wenc.TypeName(t)
